@@ -123,6 +123,7 @@ type spec struct {
 	fuel  []string // fuel (Lean expression over the parameters) of the i-th `for` loop
 	slice *sliceSpec
 	lean  string // name of the generated definition when it is not fn (methods of the same name on several receivers; dt.go)
+	dt    string // dt.go: "putArgs" = the function ends in `return recv.db.Put(k, v)`; the generated definition yields (k, v)
 }
 
 // slice mode: only one expression of a function with effects is translated
@@ -153,6 +154,8 @@ var whitelist = []spec{
 	{pkg: "datatype", recv: "listInternalKey", fn: "encode", lean: "listInternalKey_encode"},
 	{pkg: "datatype", recv: "zsetInternalKey", fn: "encodeWithMember", lean: "zsetInternalKey_encodeWithMember"},
 	{pkg: "datatype", recv: "zsetInternalKey", fn: "encodeWithScore", lean: "zsetInternalKey_encodeWithScore"},
+	{pkg: "datatype", recv: "DataTypeService", fn: "Set", lean: "Set_put", dt: "putArgs"},
+	{pkg: "datatype", recv: "DataTypeService", fn: "Get"},
 }
 
 // abstract parameter of a generated definition (something the Go function takes from its
@@ -977,6 +980,11 @@ func (t *tr) natArg(e ast.Expr) string {
 		if _, isLit := ast.Unparen(e).(*ast.BasicLit); isLit {
 			return tv.Value.ExactString()
 		}
+		if _, isId := ast.Unparen(e).(*ast.Ident); !isId {
+			// a folded constant expression (dt.go: `make([]byte, binary.MaxVarintLen64+1)`); t.expr would print an
+			// untyped literal, on which `.toNat` does not elaborate
+			return "(" + tv.Value.ExactString() + " /- " + src(e) + " -/)"
+		}
 	}
 	x, k := t.expr(e)
 	switch k.k {
@@ -1484,6 +1492,9 @@ func proj(x lx, i, n int) string {
 // call: a call of the primitive table or of an already translated function; returns the Lean
 // expression of the result (a tuple for several results) and the result kinds
 func (t *tr) call(v *ast.CallExpr) (lx, []kind, bool) {
+	if x, ks, ok := t.dtCall(v); ok { // dt.go: clock reads
+		return x, ks, true
+	}
 	for _, pr := range prims {
 		b := map[string]ast.Node{}
 		if !match(parseExpr(pr.pattern), v, b) {
@@ -2909,6 +2920,9 @@ func translate(p *pkgInfo, sp spec) (text string, err error) {
 	t.setup(fd)
 	if sp.slice != nil {
 		return t.sliceFn(), nil
+	}
+	if sp.dt != "" {
+		return t.dtMode(), nil // dt.go
 	}
 	return t.function(), nil
 }
